@@ -320,12 +320,19 @@ def check_scenario(col, rnd, pool, kind, n, sseed):
     inputs, exc = call(lambda: [member_input(m) for m in members])
     if exc is not None:
         return  # .settings itself raising is covered by the round-trip section
+    # some scenarios register the last member later, through add_indicator after the first chunk (it must join the
+    # manager of its timeframe if one is already registered, and see every candle that manager holds)
+    late = (len(members) >= 2 and not hexcfg.get("candles_lifespan") and len(chunks) >= 2
+            and random.Random(sseed * 31 + n + len(members)).random() < 0.35)
+    spec["added_later"] = spec["members"][-1] if late else None
     def run_hex():
-        h = Hexital("c08", gen.clone(candles[:first]), inputs, **deepcopy(hexcfg))
+        h = Hexital("c08", gen.clone(candles[:first]), inputs[:-1] if late else inputs, **deepcopy(hexcfg))
         pos = first
-        for k in chunks:
+        for ci, k in enumerate(chunks):
             h.append(gen.clone(candles[pos: pos + k]))
             pos += k
+            if late and ci == 0:
+                h.add_indicator(inputs[-1])
         h.calculate()
         return h
     col.tick()
